@@ -4,6 +4,8 @@ import GrinVerif.Model.CrashCompact
 import GrinVerif.Model.CrashRecov
 import GrinVerif.Model.CrashZip
 import GrinVerif.Model.CrashKernel
+import GrinVerif.Model.CrashAof
+import GrinVerif.Model.CrashMulti
 /-! Driver glue for the `crash` domain (C09): the real step labels of a scenario are interpreted
 as model steps, the durable state at each crash point is computed by the model and `recover`
 predicts how the node reopens. -/
@@ -28,6 +30,10 @@ structure Scn where
 structure St where
   tbl : List BlkInfo := []
   scns : List Scn := []
+  /-- `crash aof`: element kind (`var` / `fix<n>`), durable content of the file pair, the open file -/
+  akind : String := "var"
+  adisk : CrashAof.Disk := { size := [], data := [] }
+  aof : Option CrashAof.Aof := none
 
 def stripPfx (s : String) (n : Nat) : String := (s.drop n).toString
 def idOf (s : String) : Option Nat := (((stripPfx s 1).splitOn ":").headD "").toNat?
@@ -213,8 +219,49 @@ def showRec : Rec → String
   | .openFail why => s!"open=err:{why.toString}"
   | .ok h => s!"open=ok head=b{h}"
 
+/-- number of durable model steps the first `n` labels of a head reset have completed (the last
+LMDB commit is the single commit of both heads; the others are nested) -/
+def resetDone (labels : List String) (n : Nat) : Nat :=
+  let total := (labels.filter (·.startsWith "lmdb:after-commit")).length
+  let rec go : List String → Nat → Nat → Nat
+    | [], _, j => j
+    | l :: ls, commits, j =>
+      if l.startsWith "lmdb:after-commit" then
+        go ls (commits + 1) (if commits + 1 == total then j + 1 else j)
+      else match stepOfLabel l with
+        | some _ => go ls commits (j + 1)
+        | none => go ls commits j
+  go (labels.take n) 0 0
+
+/-- the same crash point through the step lists of `Model/CrashMulti.lean` (the lists the theorems of
+`Props/C09Multi.lean` are about): `resetCrashAfter`, `multiCrashAfter .. bodySteps` -/
+def stateModelMulti (st : St) (sc : Scn) (n : Nat) : Option Durable := do
+  if sc.kind == "reset" then
+    let oldPath ← pathOf st.tbl (st.tbl.length + 1) sc.oldHead []
+    let tgt ← sc.inputs.head?
+    let newPath ← pathOf st.tbl (st.tbl.length + 1) tgt []
+    if sc.oldHHead != sc.oldHead then none else
+    pure (resetCrashAfter (resetTarget newPath) (consistent oldPath) (resetDone sc.labels n))
+  else
+    let oldPath ← pathOf st.tbl (st.tbl.length + 1) sc.oldHead []
+    let hhPath ← pathOf st.tbl (st.tbl.length + 1) sc.oldHHead []
+    let ts := targetsOf st sc.inputs sc.oldHead sc.oldHHead
+    let steps := stepsMulti sc.labels n
+    -- only acceptances of blocks whose header is known run `bodySteps`
+    if steps.any (fun p => isHdrStep p.2 || p.2 == .hdrCommit) then none else
+    pure (multiCrashAfter ts (hdrFirst oldPath hhPath) bodySteps steps.length)
+
 def predictAt (st : St) (sc : Scn) (n : Nat) : Option String := do
   let d ← stateAt st sc n
+  -- scenarios whose steps `Model/CrashMulti.lean` lists: the state reached through the real labels must
+  -- be the state of the model's step list at the same number of completed steps
+  let tied := sc.kind == "reset" || ((sc.kind == "orphans" || sc.kind == "block") && sc.oldHHead != sc.oldHead
+    && (sc.inputs.all fun b => workOf st b ≤ workOf st sc.oldHHead))
+  if tied then
+    match stateModelMulti st sc n with
+    | some dm => if dm != d then pure "steps-differ-from-model-step-list" else pure (showRec (recover bcAT st.tbl d))
+    | none => pure "steps-differ-from-model-step-list"
+  else
   pure (showRec (recover bcAT st.tbl d))
 
 /-- kernels per block as the crash harness builds blocks: the coinbase kernel, and one kernel for
@@ -287,9 +334,90 @@ def implClass (impl : String) : String :=
   | [a] => a
   | [] => ""
 
+
+/-! ### `crash aof`: the real `DataFile<T>` / `AppendOnlyFile<T>` against `Model/CrashAof.lean` -/
+
+def aofParse (kind : String) : Bytes → Option Nat :=
+  if kind.startsWith "fix" then CrashAof.fixParse ((stripPfx kind 3).toNat?.getD 4) else CrashAof.blobParse
+
+def hexOrDash (b : Bytes) : String := if b.isEmpty then "-" else toHex b
+
+def showDisk (d : CrashAof.Disk) : String := s!"size={hexOrDash d.size} data={hexOrDash d.data}"
+
+def showSteps (t : CrashAof.Trace) : String := "[" ++ ",".intercalate (t.map (·.1)) ++ "]"
+
+/-- `open` of the current durable content -/
+def aofOpen (st : St) : CrashAof.Trace × Option CrashAof.Aof :=
+  if st.akind.startsWith "fix" then
+    ([], some (CrashAof.openFixed ((stripPfx st.akind 3).toNat?.getD 4) st.adisk.data))
+  else CrashAof.openVar (aofParse st.akind) st.adisk
+
+def handleAof (st : St) (args0 : List String) (impl : String) : St × Verdict :=
+  -- a leading `@session.op` tag only makes the cases distinct
+  let args := match args0 with
+    | t :: rest => if t.startsWith "@" then rest else args0
+    | [] => args0
+  match args with
+  | ["new", kind] => ({ st with akind := kind, adisk := { size := [], data := [] }, aof := none }, cmpModel "ok" impl)
+  | ["open"] =>
+    match aofOpen st with
+    | (t, some a) =>
+      ({ st with aof := some a, adisk := a.disk },
+       cmpModel s!"ok steps={showSteps t} n={a.sizeInElmts} {showDisk a.disk}" impl)
+    | (t, none) => ({ st with aof := none }, cmpModel s!"err steps={showSteps t}" impl)
+  | ["killopen", k] =>
+    match k.toNat? with
+    | none => (st, .unknown)
+    | some k =>
+      let (t, a) := aofOpen st
+      match CrashAof.crashAt t k with
+      | some d => ({ st with aof := none, adisk := d }, cmpModel s!"killed {showDisk d}" impl)
+      | none =>
+        let d := (a.map (·.disk)).getD st.adisk
+        ({ st with aof := none, adisk := d }, cmpModel s!"done {showDisk d}" impl)
+  | _ =>
+  match st.aof with
+  | none => (st, .unknown)
+  | some a =>
+    match args with
+    | ["append", h] =>
+      match parseHex h with
+      | none => (st, .unknown)
+      | some b =>
+        match a.append b with
+        | some a' => ({ st with aof := some a' }, cmpModel "ok" impl)
+        | none => (st, cmpModel "err" impl)
+    | ["rewind", p] =>
+      match p.toNat? with
+      | some p => ({ st with aof := some (a.rewind p) }, cmpModel "ok" impl)
+      | none => (st, .unknown)
+    | ["discard"] => ({ st with aof := some a.discard }, cmpModel "ok" impl)
+    | ["flush"] =>
+      let (t, a', ok) := a.flush
+      ({ st with aof := some a', adisk := a'.disk },
+       cmpModel s!"{if ok then "ok" else "err"} steps={showSteps t} n={a'.sizeInElmts} {showDisk a'.disk}" impl)
+    | ["kill", k] =>
+      match k.toNat? with
+      | none => (st, .unknown)
+      | some k =>
+        let (t, a', _) := a.flush
+        match CrashAof.crashAt t k with
+        | some d => ({ st with aof := none, adisk := d }, cmpModel s!"killed {showDisk d}" impl)
+        | none => ({ st with aof := none, adisk := a'.disk }, cmpModel s!"done {showDisk a'.disk}" impl)
+    | ["readall", n] =>
+      match n.toNat? with
+      | none => (st, .unknown)
+      | some n =>
+        let es := (CrashAof.dfReadAll (aofParse st.akind) a n).map fun
+          | some b => hexOrDash b
+          | none => "none"
+        (st, cmpModel ("[" ++ ",".intercalate es ++ "]") impl)
+    | _ => (st, .unknown)
+
 def handle (st : St) (args : List String) (impl : String) : St × Verdict :=
   match args with
   | "reset" :: _ => ({}, .ok)
+  | "aof" :: rest => handleAof st rest impl
   | "blk" :: b :: rest =>
     match parseBlk b rest with
     | some blk => ({ st with tbl := st.tbl ++ [blk] }, .ok)
